@@ -16,11 +16,19 @@ WHY_MISSED = {
  "C07/r2-3": "per-path balance of the FileRef count in compact is not under contract (only the accounting primitives are)",
  "C11/r2-2": "appendChildStacks is proved for the top level only; its treatment of child stacks (incl. the incarnation filter) is assumed",
  "C15/r2-3": "per-path balance of the footer count in Store.persist is not under contract",
+ "C02/r3-1": "per-path balance of the mmap counts in revertToSnapshot (SegmentLocs.AddRef is a trusted contract without an accounting postcondition)",
+ "C02/r3-2": "the lower-level wrapper bookkeeping of mergerNotifyPersister (addRef/decRef on stackDirtyBase.lowerLevelSnapshot) is not stated in its region clauses",
+ "C02/r3-3": "the order of loadSegments and persistFooter in Store.persist (per-path balance of mmap counts) is not under contract",
+ "C08/r3-3": "inside mergeInto (trusted); the bounded stand-in uses an operator that never yields an empty value",
+ "C18/r3-2": "which directory entries openStore accepts as data files is not under contract (strings are not modelled)",
+ "C18/r3-3": "per-path balance of the footer count in Store.persist is not under contract",
+ "C19/r3-2": "collection.get is checked under C10/C03 (the seed is caught there by ensures#chain); it is not tagged C19 because its known finding S7 is not a C19 violation",
+ "C20/r3-3": "Store.persistSegments has no contract of its own (its callers' error propagation is proved only from its result)",
 }
 log = sys.argv[1]
 rows = {}
 for ln in open(log):
-    m = re.match(r'(DETECTED|MISSED) seeded/(C\d+)/((?:r2-)?\d+)/ ?(.*)', ln.strip())
+    m = re.match(r'(DETECTED|MISSED) seeded/(C\d+)/((?:r[23]-)?\d+)/ ?(.*)', ln.strip())
     if not m:
         continue
     st, p, n, rest = m.groups()
@@ -32,7 +40,12 @@ print("| seed | change (file: function) | caught by |")
 print("|---|---|---|")
 def order(k):
     p, n = k
-    return (p, 1 if n.startswith("r2-") else 0, int(n.split("-")[-1]))
+    rnd = 0
+    if n.startswith("r2-"):
+        rnd = 1
+    if n.startswith("r3-"):
+        rnd = 2
+    return (p, rnd, int(n.split("-")[-1]))
 for (p, n) in sorted(rows, key=order):
     st, rest = rows[(p, n)]
     meta = {}
